@@ -269,6 +269,22 @@ class Analysis:
                     return False
         return True
 
+    def self_conflict_mixed(self, t, x, y):
+        """Some call of x is exclusive with some call of y, but not all of them: the shape in which a pairwise
+        (instead of all-pairs) exclusivity test goes wrong."""
+        if x == t or y == t:
+            return False
+        cx = [c for c in self.chains[t] if c[-1].target == x]
+        cy = [c for c in self.chains[t] if c[-1].target == y]
+        res = []
+        for c1 in cx:
+            for c2 in cy:
+                i = 0
+                while i < len(c1) and i < len(c2) and c1[i] is c2[i]:
+                    i += 1
+                res.append(i < len(c1) and i < len(c2) and pos_exclusive(c1[i].mod, c1[i].pos, c2[i].mod, c2[i].pos))
+        return any(res) and not all(res)
+
     def relation_table(self):
         """(t1, t2) -> 'MUST' | 'AMB' for unordered pairs that may block each other; absent = must not."""
         tab = {}
